@@ -73,6 +73,8 @@ def gen_case(rng, tier, exact):
     for _ in range(n):
         if rng.random() < 0.2:
             hist.append(['eval'])
+        if not cfg['update_factors_in_hook'] and rng.random() < 0.35:
+            hist.append(['attempt', rng.randint(1, 2)])      # pending micro-batches discarded by reset_batch(): they must leave no trace
         hist.append(['train', acc])
     return cfg, hist
 
@@ -162,15 +164,15 @@ def run(tier, seed, rng):
         step = 0
         for ev, e in enumerate(hist):
             o0 = w.results[0][ev]
-            if e[0] == 'eval':
-                # eval passes leave the factors untouched
+            if e[0] in ('eval', 'attempt'):
+                # eval passes (and abandoned, reset iterations) leave the factors untouched
                 for r in range(W):
                     fr = w.results[r][ev]['factors']
                     if ev > 0:
                         pf = w.results[r][ev - 1]['factors']
                         for (a, g), (pa, pg) in zip(fr, pf):
                             if (a is None) != (pa is None) or (a is not None and not (torch.equal(a, pa) and torch.equal(g, pg))):
-                                probs.append(f'event {ev}: eval-mode pass changed a factor on rank {r}')
+                                probs.append(f'event {ev}: {e[0]} changed a factor on rank {r}')
                 continue
             fus = cfg['factor_update_steps']
             is_upd = step % fus == 0
